@@ -144,6 +144,68 @@ def synthetic(ctx, n, via_response):
     ctx.correspond("response" if via_response else "placement", IMPORTS, "match_case", "check_match_case", lits, cj, shard=100)
 
 
+def gated(ctx, n):
+    """Event sequences with limits and conditions: matching, each action's own limiter and gate, composed."""
+    from deep.api.tracepoint.trigger import LocationAction, Trigger, LineLocation, FunctionLocation, Location
+    from ..lib.e2 import Clock, BASE_NS, argv, stats_of
+    rng = ctx.rng
+    clock = Clock().install()
+    lits, cj = [], []
+    try:
+        for _ in range(n):
+            world = e2.World(logger=True, spans=0, metrics=0)
+            world.clear_pending()
+            locs = gen_locs(rng) or [("line", "a.py", 2)]
+            trigs, inst, actions = [], [], []
+            nid = 0
+            for loc in locs:
+                acts = []
+                for _k in range(rng.choice([1, 1, 2])):
+                    count, period = rng.choice(["1", "2", "-1", "3"]), rng.choice(["0", "1", "5"])
+                    cond = rng.choice([None, None, "c1", "c2"])
+                    a = LocationAction("tp%d" % nid, cond, {"fire_count": count, "fire_period": period, "log_msg": "m"},
+                                       LocationAction.ActionType.Log)
+                    acts.append(a)
+                    actions.append((nid, a))
+                    inst.append("(%s, {| ha_id := %s; ha_lim := mk_lim %s %s 0 0; ha_cond := %s |})" % (
+                        loc_lit(loc), L.nat(nid), argv(count), argv(period), L.opt(None if cond is None else L.s(cond))))
+                    nid += 1
+                location = LineLocation(loc[1], loc[2], Location.Position.START) if loc[0] == "line" else \
+                    FunctionLocation(loc[1], loc[2], Location.Position.START)
+                trigs.append(Trigger(location, acts))
+            world.install(trigs)
+            t = BASE_NS
+            evs, obs, jd = [], [], []
+            for _e in range(rng.choice([5, 15, 40])):
+                t += rng.choice([1, 500_000, 1_000_000, 6_000_000])
+                kind, file, line, func = rng.choice(["line", "line", "call", "return"]), rng.choice(FILES), rng.choice([1, 2, 3, 4]), rng.choice(FUNCS)
+                c1, c2 = rng.random() < 0.6, rng.choice([True, False, "boom"])
+
+                def boom():
+                    raise KeyError(1)
+                loc_vars = {"c1": c1}
+                if c2 != "boom":
+                    loc_vars["c2"] = c2
+                clock.now = t
+                start = len(world.log)
+                world.event(e2.mk_frame(file, func, line, loc_vars), kind, None)
+                acted = effects_since(world, start)
+                env = "[(%s, EVal %s); (%s, %s)]" % (L.s("c1"), L.s(str(c1)), L.s("c2"),
+                                                     "EErr %s %s" % (L.s("NameError"), L.s("name 'c2' is not defined")) if c2 == "boom" else "EVal %s" % L.s(str(c2)))
+                evs.append("{| he_ev := %s; he_ts := %s; he_env := %s |}" % (ev_lit(kind, file, line, func), L.z(t), env))
+                obs.append(L.lst(L.nat(i) for i in acted))
+                jd.append([kind, file, line, func, t - BASE_NS, c1, c2, acted])
+            counts = L.lst("(%s, %s)" % (L.nat(i), L.z(stats_of(a)[0])) for i, a in actions)
+            j = dict(gated=True, actions=[(i, a.condition, a.config["fire_count"], a.config["fire_period"]) for i, a in actions], events=jd)
+            ctx.case(dict(actions=j["actions"], n_events=len(jd), first=jd[:3]), nontrivial=any(e[7] for e in jd), bucket="gated")
+            lits.append("{| hc_inst := %s; hc_events := %s; hc_obs := %s; hc_obs_counts := %s |}" % (L.lst(inst), L.lst(evs), L.lst(obs), counts))
+            cj.append(j)
+            world.clear_pending()
+    finally:
+        clock.restore()
+    ctx.correspond("composition", ["Base", "Config", "Limiter", "Cond", "Match", "Handler"], "handler_case", "check_handler_case", lits, cj, shard=60)
+
+
 # ----------------------------------------------------------------------------- live programs
 LIVE_SRC = '''
 import threading
@@ -282,6 +344,7 @@ def run(ctx):
     ctx.prove()
     synthetic(ctx, 1500 if ctx.thorough else 250, False)
     synthetic(ctx, 600 if ctx.thorough else 100, True)
+    gated(ctx, 600 if ctx.thorough else 100)
     live(ctx, 60 if ctx.thorough else 12)
 
 
